@@ -152,58 +152,88 @@ def run_heartbeat_file(case):
 
 def run_idle_period(case):
     """engine T, idle gthread loop: how long can an idle, healthy worker go between two heartbeats, compared with `timeout`?
-    (the virtual clock advances by exactly what the loop asks its selector to wait for). `parked` idle keep-alive connections
-    (each reached through the real accept / handle / finish_request path) sit in the worker while it idles."""
+    (the virtual clock advances by exactly what the loop asks its selector / futures.wait to wait for, plus 10 ms per call). `parked`
+    idle keep-alive connections (each reached through the real accept / handle / finish_request path) sit in the worker while it
+    idles; with worker_connections == parked the connection table is full the whole time."""
     from vlib import tsim
     T = case["timeout"]
     parked = case.get("parked", 0)
     keepalive = case.get("keepalive", 2)
+    wc = case.get("wc", 10)
     prefix = []
     for i in range(parked):
         prefix += [["connect"], ["time", 0], ["send_ka", i], ["time", 0], ["handler", 0], ["time", 0]]
-    sim = tsim.Sim(2, 10, keepalive, prefix)
+    sim = tsim.Sim(2, wc, keepalive, prefix)
     beats = []
     w = sim.build()
     w.timeout = T / 2.0
     w.notify = lambda: (beats.append(sim.clock), sim.on_iteration())
     orig_select = w.poller.select
     idle_from = []
+    calls = [0]
+
+    def idle_step(blocks_for):
+        if not idle_from:
+            idle_from.append(sim.clock)
+        sim.clock += blocks_for + 0.01
+        calls[0] += 1
+        if sim.clock - idle_from[0] > 2 * T + 3 or calls[0] > 20000:
+            w.alive = False
 
     def select(timeout=None):
         if sim.ei < len(sim.events):
             return orig_select(timeout)          # the scripted prefix: connections arrive, are served and go idle
-        if not idle_from:
-            idle_from.append(len(beats))
         # nothing is ever ready from here on: the call blocks for its full timeout (None = for ever)
-        sim.clock += 86400.0 if timeout is None else timeout
-        if len(beats) - idle_from[0] >= 6 + 2 * parked:
-            w.alive = False
+        idle_step(86400.0 if timeout is None else timeout)
         return []
     w.poller.select = select
+    sim_futures = tsim.SimFutures(sim)
+
+    class IdleFutures(object):
+        FIRST_COMPLETED = sim_futures.FIRST_COMPLETED
+        ALL_COMPLETED = sim_futures.ALL_COMPLETED
+
+        def wait(self, fs, timeout=None, return_when=None):
+            if sim.ei < len(sim.events) or not w.alive:
+                return sim_futures.wait(fs, timeout=timeout, return_when=return_when)
+            fs = list(fs)
+            pending = [f for f in fs if not f.done()]
+            # like concurrent.futures.wait: returns at once when nothing is pending, else blocks for the timeout (nothing completes here)
+            idle_step((86400.0 if timeout is None else timeout) if pending else 0.0)
+            return tsim.Wait(set(f for f in fs if f.done()), set(pending))
     saved = (tsim.G.time, tsim.G.futures)
-    tsim.G.time, tsim.G.futures = tsim.SimTime(sim), tsim.SimFutures(sim)
+    tsim.G.time, tsim.G.futures = tsim.SimTime(sim), IdleFutures()
     try:
         w.run()
     finally:
         tsim.G.time, tsim.G.futures = saved
-    idle_beats = beats[max(idle_from[0] - 1, 0):] if idle_from else beats
-    gaps = [b - a for a, b in zip(idle_beats, idle_beats[1:])]
+    t0 = idle_from[0] if idle_from else sim.clock
+    marks = [b for b in beats if b <= t0][-1:] + [b for b in beats if b > t0] + [sim.clock]
+    gaps = [b - a for a, b in zip(marks, marks[1:])]
     period = max(gaps) if gaps else 0
     vio = []
-    classes = ["engine:Tidle", "timeout:%d" % T, "parked:%d" % parked, "keepalive:%s" % keepalive]
+    full = parked >= wc
+    classes = ["engine:Tidle", "timeout:%d" % T, "parked:%d" % parked, "keepalive:%s" % keepalive, "table-full:%s" % full]
     if parked and len([c for c in sim.conns if c.request_count]) < parked:
         return Outcome([], False, classes + ["inconclusive:prefix-did-not-park"], sample={"case": case})
     if period >= T:
-        sig = "C11/idle-heartbeat-period-not-below-timeout:gthread" + (":with-idle-keepalive-connections" if parked and period > T / 2.0 + 1e-9 and period > 1.0 + 1e-9 else "")
-        vio.append(Violation("healthy-never-killed", sig,
-                             observed={"heartbeat_period": period, "timeout": T, "worker_wait_bound": T / 2.0, "parked": parked, "keepalive": keepalive},
+        extra = ""
+        # (the loop's own 1-s tick plus the tail of the scripted prefix explain up to ~1.6 s: that is the known --timeout 1 finding)
+        if full and period > 2.2:
+            extra = ":connection-table-full"
+        elif parked and period > T / 2.0 + 1e-9 and period > 2.2:
+            extra = ":with-idle-keepalive-connections"
+        vio.append(Violation("healthy-never-killed", "C11/idle-heartbeat-period-not-below-timeout:gthread" + extra,
+                             observed={"heartbeat_period": round(period, 3), "timeout": T, "worker_wait_bound": T / 2.0, "parked": parked,
+                                       "keepalive": keepalive, "worker_connections": wc},
                              expected="an idle worker refreshes its heartbeat more often than every `timeout` seconds"))
-    return Outcome(vio, True, classes, key="Tidle|%s|%s|%s" % (T, parked, keepalive), sample={"case": case, "period": period, "beats": len(beats)})
+    return Outcome(vio, True, classes, key="Tidle|%s|%s|%s|%s" % (T, parked, keepalive, wc), sample={"case": case, "period": period, "beats": len(beats)})
 
 
 def extra_cases(tier, seed, shard, nshards):
     from checks import c11_real
-    cs = c11_real.cells(tier) + [{"engine": "Tidle", "timeout": t, "parked": n, "keepalive": ka} for t in (1, 2, 3, 30) for n, ka in ((0, 2), (1, 2), (2, 6), (1, 75))]
+    cs = c11_real.cells(tier) + [{"engine": "Tidle", "timeout": t, "parked": n, "keepalive": ka} for t in (1, 2, 3, 30) for n, ka in ((0, 2), (1, 2), (2, 6), (1, 75))] + [
+        {"engine": "Tidle", "timeout": t, "parked": n, "keepalive": 75, "wc": n} for t in (2, 3) for n in (1, 2)]
     for i, c in enumerate(cs):
         if (i + seed) % nshards == shard:
             yield c
